@@ -476,6 +476,11 @@ func (vfs *OrefaFS) Mkdir(name string, perm fs.FileMode) error {
 
 	if !parentOk {
 		for !parentOk {
+			if len(dirName) <= avfs.VolumeNameLen(vfs, dirName) {
+				// the volume does not exist.
+				return &fs.PathError{Op: op, Path: name, Err: vfs.err.NoSuchDir}
+			}
+
 			dirName, _ = avfs.SplitAbs(vfs, dirName)
 			parent, parentOk = vfs.nodes[dirName]
 		}
@@ -536,6 +541,11 @@ func (vfs *OrefaFS) MkdirAll(path string, perm fs.FileMode) error {
 			}
 
 			break
+		}
+
+		if len(dirName) <= avfs.VolumeNameLen(vfs, dirName) {
+			// the volume does not exist.
+			return &fs.PathError{Op: op, Path: path, Err: vfs.err.NoSuchDir}
 		}
 
 		ds = append(ds, dirName)
